@@ -282,7 +282,7 @@ def callee_closure(text, tab, roots, maxdef=6):
         seg = plain[b:e]
         called = set(re.findall(r'\b([a-z_][A-Za-z0-9_]*)\s*(?:::<[^>]*>)?\s*\(', seg))                 # f(..), x.f(..), T::f(..)
         called |= set(re.findall(r'::([a-z_][A-Za-z0-9_]*)\b(?!\s*(?:::|\(|<))', seg))                    # T::f passed as a function value
-        bodies.setdefault((mname, m.group(1)), set()).update(called - {'clone', 'default', 'fmt', 'eq', 'from', 'into', 'is_empty', 'len', 'push', 'insert', 'contains', 'iter', 'into_iter', 'map', 'ok', 'unwrap', 'expect'})
+        bodies.setdefault((mname, m.group(1)), set()).update(called - {'clone', 'default', 'fmt', 'eq', 'from', 'into', 'is_empty', 'len', 'push', 'insert', 'contains', 'iter', 'into_iter', 'map', 'ok', 'unwrap', 'expect', 'to_vec', 'to_owned', 'cmp', 'partial_cmp', 'new', 'build', 'text', 'get', 'first', 'last', 'remove', 'pop', 'extend', 'sort_by', 'reverse'})
         defs[m.group(1)] = defs.get(m.group(1), 0) + 1
     by_short = {}
     for n, v in tab.items():
@@ -596,10 +596,10 @@ def main():
                     stability['changed_outcome'].append(n)
                     break
     failed = [(n, k) for n, k in obl if not ok(n, k)]
-    # C01 is about panics, aborts and non-termination only: a function other than a decoder that fails NOTHING BUT
+    # C01 is about panics, aborts and non-termination only: a function that fails NOTHING BUT
     # postconditions (its functional contract) still cannot panic - every callee precondition, index, arithmetic and
     # termination obligation in it was discharged - so such a failure belongs to the functional properties, not to C01.
-    # (Decoders are excluded: C01's second clause rests on their result relations.)
+    # (C01's second clause - decoded values can be handed to the helpers - has its own lemma obligations and probes.)
     not_relevant = []
     if pid in getattr(obligations, 'SAFETY_ONLY', {}):
         keep = obligations.SAFETY_ONLY[pid]
